@@ -17,8 +17,8 @@ LEVEL = 'fault_enumeration'
 QUICK_S = 40
 THOROUGH_S = 420
 CHUNK = 40
-REAL_COMPONENTS = ['pysmi.compiler.MibCompiler.compile', 'parser', 'SymtableCodeGen', 'JsonCodeGen', 'AnyFileBorrower']
-STUB_COMPONENTS = ['sources', 'searchers', 'borrower readers', 'writer', 'injected package errors']
+REAL_COMPONENTS = ['pysmi.compiler.MibCompiler.compile', 'parser', 'SymtableCodeGen', 'JsonCodeGen', 'AnyFileBorrower', 'real-filesystem worlds (about 15 %): FileReader (plain, with .index), ZipReader, HttpReader (behind a simulated web server), AnyFileSearcher, StubSearcher, AnyFileBorrower, FileWriter - tapped in place', 'CallbackReader sources sharing one look-up function and real StubSearcher objects in a share of the simulated worlds']
+STUB_COMPONENTS = ['sources', 'searchers', 'borrower readers', 'writer', 'injected package errors', 'web server + network of HTTP sources (simulated at urlopen: refuse / 404 / 500 / cut body / no Last-Modified)', 'errno and short-write outcomes of os.* calls in real-filesystem worlds (seeded rate)']
 RULE = ('sweep: all labelled import digraphs (self imports allowed) over k<=2 (quick) / k<=3 (thorough) modules reachable from the requested module 0 '
         'x failing module x failure stage {missing, reader error, lexical, syntax, truncated, empty file, duplicate symbol, unknown parent, bad reference, '
         'OID cycle, injected parser/symbol-table/generator error} x ignoreErrors x borrower yes/no; seeded: random graphs with several failures. '
